@@ -269,6 +269,15 @@ ClassProvides(c, ifs) ==
     /\ cprov' = [cprov EXCEPT ![c] = ifs]
     /\ UNCHANGED <<prov, pcache, supercache, ghost>>
 
+\* alsoProvides(cls, i) on a class object: the new declaration is built from
+\* the old one (a nested declaration argument) plus i
+AlsoClassProvides(c, i) ==
+    /\ SetSt(Materialize(CurSt, c))
+    /\ cprov' = [cprov EXCEPT ![c] =
+                    (IF @ = NotSet THEN <<>> ELSE @) \o
+                    (IF @ # NotSet /\ i \in SeqSet(@) THEN <<>> ELSE <<i>>)]
+    /\ UNCHANGED <<prov, pcache, supercache, ghost>>
+
 \* providedBy(super(c, o)) the first time for (type(o), c)
 RestOfMro(t, c) ==
     LET m == Mro(t) IN SubSeq(m, IndexOf(m, c) + 1, Len(m))
